@@ -1,9 +1,9 @@
 """C09: deleting vertices keeps a shape and its skin data consistent."""
 ID = "C09"
 LEVEL = "model_checking"
-HARNESS = ["c09_delete.cpp"]
+MODULES = {"c09": dict(harness=["c09_delete.cpp"], entries=()), "c09file": dict(harness=["fm_delete.cpp"], entries=("h_delverts",))}
 BOUNDS = {
-    "quick": {"vertices_n": "1..4", "triangles_t": "0..2", "deleted_k": "1..n (every sorted in-range list, symbolic)", "strip_points": "<=4", "skin": "<=2 bones x <=3 weights; 1 partition, vertex map <=3, <=2 triangles, mapped and true indices, list and strip form", "segments": "FO4: 2 segments (first with 2 sub-segments), SSE: 3 segments, symbolic split points"},
+    "quick": {"file_level": "DeleteVertsForShape on 4-vertex shapes of six versions (unskinned, skinned, skinned+LOCKEDNORM), k<=2 symbolic sorted indices, second deletion, save+reload", "vertices_n": "1..4", "triangles_t": "0..2", "deleted_k": "1..n (every sorted in-range list, symbolic)", "strip_points": "<=4", "skin": "<=2 bones x <=3 weights; 1 partition, vertex map <=3, <=2 triangles, mapped and true indices, list and strip form", "segments": "FO4: 2 segments (first with 2 sub-segments), SSE: 3 segments, symbolic split points"},
     "thorough": {"vertices_n": "1..5", "triangles_t": "0..3", "deleted_k": "1..n", "strip_points": "<=5", "skin": "<=2 bones x <=4 weights; vertex map <=4, <=3 triangles", "segments": "as quick"},
 }
 ASSUMPTIONS = [
@@ -54,4 +54,16 @@ def jobs(tier, seed):
                         J.append(dict(entry="h_skinpart", args=[n, m, t, k, mapped, 0], budget=bud))
                         if t >= 1 and (tier == "thorough" or n <= 3):
                             J.append(dict(entry="h_skinpart", args=[n, m, t, k, mapped, 1], budget=bud))
+    for j in J:
+        j["mod"] = "c09"
+    # file level: NifFile::DeleteVertsForShape on 4-vertex / 2-triangle API-built shapes, then save+reload
+    from props.fmodel import OB, FO3, SK, SSE, FO4, FO76, SKIN, EXTRA
+    for ver in (OB, FO3, SK, SSE, FO4, FO76):
+        for feat in (0, SKIN, SKIN | EXTRA):
+            if feat and ver == FO76:
+                continue
+            for k in ((1, 2) if tier == "quick" else (1, 2, 3, 4)):
+                if tier == "quick" and k == 2 and feat == SKIN:
+                    continue
+                J.append(dict(entry="h_delverts", args=[ver, feat, k, 1 if k == 1 else 0], budget=120 if tier == "quick" else 900, mod="c09file"))
     return J
